@@ -175,6 +175,30 @@ func handle(c *core.Check, st core.State, varsOnly bool) {
 		c.Violation("panic/expand", fmt.Sprintf("%s: Decode(Expand(..)) panicked: %v", desc, rec), vec)
 		return
 	}
+	// the two-phase flow of the extension's README: a partial decode first (here of an attribute no
+	// body has), analysis calls on the REMAINING body (variables, source range), then the decode of
+	// that same remaining body: the same value and error-ness as the direct decode
+	if !varsOnly {
+		var v3 cty.Value
+		var d3 hcl.Diagnostics
+		c.Count("evaluations", 1)
+		if rec, p := core.Guard(func() {
+			first := hcldec.ObjectSpec{"zz": &hcldec.AttrSpec{Name: "zz_unused", Type: cty.DynamicPseudoType}}
+			_, remain, _ := hcldec.PartialDecode(dynblock.Expand(df.Body, ctx), first, ctx)
+			_ = hcldec.Variables(remain, spec)
+			_ = hcldec.SourceRange(remain, spec)
+			_, _, _ = hcldec.PartialDecode(remain, spec, ctx)
+			v3, d3 = hcldec.Decode(remain, spec, ctx)
+		}); p {
+			c.Violation("panic/two-phase", fmt.Sprintf("%s: the partial-decode / analyse / decode flow panicked: %v", desc, rec), vec)
+			return
+		}
+		if d3.HasErrors() != d1.HasErrors() || (!d1.HasErrors() && !v3.RawEquals(v1)) {
+			c.Violation("two-phase-differs", fmt.Sprintf("%s: decoding the remaining body after analysis calls gives %s (errors=%v), the direct decode gives %s (errors=%v)",
+				desc, e1.Describe(v3), d3.HasErrors(), e1.Describe(v1), d1.HasErrors()), vec)
+			return
+		}
+	}
 	if !outOom && !varsOnly {
 		wf, wd := hclsyntax.ParseConfig([]byte(outSrc), "out.hcl", hcl.InitialPos)
 		if wd.HasErrors() {
